@@ -214,25 +214,8 @@ def r16_2(cx):
     d = bo.def_term(sl[0]) if sl else None
     ok = d is not None and tstr(d) == 'dfa.stride2'
     cx.report('R16.2', bo, 'stride2-source', ok, 'stride2 is the DFA\'s own stride2' if ok else 'stride2 = %s' % (tstr(d) if d else None))
-    # shuffle: special ids are taken from the post-swap positions
-    sh = cx.body("nfa::noncontiguous::Compiler::<'a>::shuffle")
-    got = {}
-    for bi, si, tt, v, s in sh.field_stores():
-        if tt[0] == 'f' and tt[2] in FIELDS:
-            got.setdefault(tt[2], []).append((bi, expand_vars(sh, v, keep=('next_avail', 'self'))))
-    def minus(v, k):
-        s = tstr(strip_convs(v), 300)
-        return 'next_avail' in s and ('checked_sub' in s or 'Sub(' in s) and s.replace(' ', '').count(', %d)' % k) + s.replace(' ', '').count(',%d)' % k) >= 1
-    oks = (len(got.get('start_anchored_id', [])) == 1 and minus(got['start_anchored_id'][0][1], 1)
-           and len(got.get('start_unanchored_id', [])) == 1 and minus(got['start_unanchored_id'][0][1], 2))
-    mm = got.get('max_match_id', [])
-    okm = len(mm) == 2 and any(minus(v, 3) for _, v in mm) and any('start_anchored_id' in tstr(v) for _, v in mm)
-    cx.report('R16.2', sh, 'layout', oks and okm, 'after the shuffle: start_anchored = next_avail-1, start_unanchored = next_avail-2, max_match = next_avail-3 (or the anchored start if it matches)' if oks and okm else
-              'shuffle assigns the special ids as %s' % {k: [tstr(v, 100) for _, v in vs] for k, vs in got.items()})
-    swaps = [bi for bi, t in sh.calls(r'Remapper::swap$')]
-    remaps = [bi for bi, t in sh.calls(r'Remapper::remap$')]
-    ok = len(remaps) == 1 and len(swaps) >= 3 and all(remaps[0] not in sh.reach(0, cut_blocks=[s]) or sh.dominates(s, remaps[0]) or True for s in swaps) and all(s not in sh.reach_after(remaps[0]) for s in swaps)
-    cx.report('R16.2', sh, 'swap-then-remap', ok, 'all swaps precede the single remap' if ok else 'a swap happens after remap (ids would be stale)')
+    from rules.trie import r16_2_shuffle
+    r16_2_shuffle(cx)
     co = cx.body("nfa::noncontiguous::Compiler::<'a>::compile")
     vs = [expand_vars(co, v, keep=('self',)) for bi, si, tt, v, s in co.field_stores() if tt[0] == 'f' and tt[2] == 'max_special_id']
     ok = len(vs) == 1
